@@ -69,9 +69,9 @@ def short_extra(rng, rec):
     if r < 0.5:
         return f"{gen.name(rng)}, {gen.num(rng)} {gen.rep(rng)} at {page}{tail}"
     if r < 0.7:
-        return f"{gen.name(rng)}, supra, at {page}{tail} {gen.frag(rng)}"
+        return f"{gen.name(rng)}, {gen.foldvar(rng, 'supra', 0.15)}, at {page}{tail} {gen.frag(rng)}"
     if r < 0.85:
-        return f"Id. at {page}{tail} {gen.frag(rng)}"
+        return f"{gen.foldvar(rng, rng.choice(['Id.', 'Ibid.', 'id.']), 0.15)} at {page}{tail} {gen.frag(rng)}"
     sep = rng.choice(["\t", "  ", "( ", " (", "\n", " "])
     return f"{gen.name(rng)}{sep}v. {gen.name(rng)}, {gen.num(rng)} {gen.rep(rng)} {gen.num(rng)}{tail}"
 
